@@ -218,7 +218,7 @@ func streamNoPanic(o *Out, r *rand.Rand, n int, thorough bool) {
 				case cls2 == "crashed" && (strings.Contains(again, "out of memory") || strings.Contains(again, "cannot allocate") || strings.Contains(again, "stack exceeds") || strings.Contains(again, "stack overflow")):
 					// memory / stack exhaustion is outside the guarantee
 					o.Sum.Hist["outcome:resource-exhaustion(excluded)"]++
-				case cls2 == "stuck":
+				case cls2 == "stuck" || cls2 == "timeout":
 					// not returning in time is C02's business (defers piled up by an endless loop run after the interrupt); no fault of the host
 					o.Sum.Hist["outcome:stuck-confirmed"]++
 				default:
